@@ -242,9 +242,35 @@ func factsC19() {
 			}
 		}
 		clamped := map[string]int64{}
+		// the other common spelling: `if p > C { p = C }`
+		ifClamp := map[*ast.AssignStmt]bool{}
+		for _, st := range mv.Body.List {
+			ifs, ok := st.(*ast.IfStmt)
+			if !ok || ifs.Init != nil || ifs.Else != nil || len(ifs.Body.List) != 1 {
+				continue
+			}
+			cond, ok1 := ifs.Cond.(*ast.BinaryExpr)
+			as, ok2 := ifs.Body.List[0].(*ast.AssignStmt)
+			if !ok1 || !ok2 || cond.Op != token.GTR || as.Tok != token.ASSIGN || len(as.Lhs) != 1 || len(as.Rhs) != 1 {
+				continue
+			}
+			id, ok := cond.X.(*ast.Ident)
+			if !ok || !isParam[id.Name] || show(as.Lhs[0]) != id.Name || show(as.Rhs[0]) != show(cond.Y) {
+				continue
+			}
+			if v, err := pkgs[mx].evalConst(cond.Y, 0); err == nil && v > 0 {
+				if _, dup := clamped[id.Name]; !dup {
+					clamped[id.Name] = v
+					ifClamp[as] = true
+				}
+			}
+		}
 		ast.Inspect(mv.Body, func(n ast.Node) bool {
 			switch x := n.(type) {
 			case *ast.AssignStmt:
+				if ifClamp[x] {
+					return true
+				}
 				for i, l := range x.Lhs {
 					id, ok := l.(*ast.Ident)
 					if !ok || !isParam[id.Name] {
